@@ -3,6 +3,7 @@ import Rie.Proofs.Bucket
 
 /-! Lemmas about the direct-invoke model (used by `Rie.Props.C17`). -/
 namespace Rie.DirectInvoke
+open Rie.Gen
 
 /-! ### `chunks` -/
 
@@ -185,7 +186,7 @@ theorem applyReset_noerr (p : SendParams) (env : Env) (rs : List Bytes)
   unfold applyReset at *
   split
   · split
-    · rename_i hj; simp [hj] at h
+    · rename_i hm hr hj; simp [hm, hr, hj] at h
     · rfl
   · rfl
 
@@ -213,11 +214,12 @@ theorem applyBudget_prefix (env : Env) (ws : List Bytes) : (applyBudget env ws).
 theorem applyBudget_noerr (env : Env) (ws : List Bytes) (h : (applyBudget env ws).2 = false) :
     (applyBudget env ws).1.flatten = ws.flatten := by
   unfold applyBudget at *
-  split
-  · rfl
-  · rename_i b _
-    simp only [cut_err, decide_eq_false_iff_not] at h
-    rw [cut_flatten, List.take_of_length_le (by omega)]
+  cases hb : env.budget with
+  | none => rfl
+  | some b =>
+    simp only [hb, cut_err, decide_eq_false_iff_not] at h
+    simp only [cut_flatten]
+    rw [List.take_of_length_le (by omega)]
 
 /-- what is forwarded when nothing interferes -/
 def fullForward (p : SendParams) (src : Src) : Bytes :=
@@ -273,5 +275,79 @@ theorem parsedOf_buffered (g₁ g₂ : Globals) (n : Int) :
 theorem sendParams_buffered (g₁ g₂ : Globals) (n : Int) :
     sendParams { g₁ with maxSize := n, mode := .buffered } = sendParams { g₂ with maxSize := n, mode := .buffered } := by
   simp [sendParams]
+
+theorem tokenChecks_ok (g : Globals) (r : Req) (t : Token) (p : Parsed) (h : tokenChecks g r t = .ok p) :
+    p = parsedOf g ∧ r.id = t.id ∧ r.tok = t.tok ∧ r.ver = t.ver ∧ r.now ≤ t.deadline := by
+  unfold tokenChecks at h
+  split at h
+  · cases h
+  split at h
+  · cases h
+  split at h
+  · cases h
+  split at h
+  · cases h
+  rename_i h1 h2 h3 h4
+  cases h
+  exact ⟨rfl, by simpa using h1, by simpa using h2, by simpa using h3, by omega⟩
+
+/-- the two ways a request is accepted -/
+theorem receive_ok_cases (g : Globals) (r : Req) (t : Token) (p : Parsed) (h : (receive g r t).2 = .ok p) :
+    r.custOk = true ∧ ∃ n m, hdrMax r.maxSize = .ok n ∧ hdrMode r.mode = .ok m ∧
+      ((isStreaming n m = false ∧
+          receive g r t = ({ g with maxSize := n, mode := .buffered },
+                           tokenChecks { g with maxSize := n, mode := .buffered } r t)) ∨
+       (isStreaming n m = true ∧ ∃ rate burst, hdrRate r.rate = .ok rate ∧ hdrBurst r.burst = .ok burst ∧
+          receive g r t = ({ maxSize := n, mode := .streaming, rate := rate, burst := burst },
+                           tokenChecks { maxSize := n, mode := .streaming, rate := rate, burst := burst } r t))) := by
+  cases hc : r.custOk with
+  | false => simp [receive, hc] at h
+  | true =>
+    refine ⟨rfl, ?_⟩
+    cases hm : hdrMax r.maxSize with
+    | error e => simp [receive, hc, hm] at h
+    | ok n =>
+      cases hmo : hdrMode r.mode with
+      | error e => simp [receive, hc, hm, hmo] at h
+      | ok m =>
+        refine ⟨n, m, rfl, rfl, ?_⟩
+        cases hst : isStreaming n m with
+        | false =>
+          refine Or.inl ⟨rfl, ?_⟩
+          simp [receive, hc, hm, hmo, hst]
+        | true =>
+          refine Or.inr ⟨rfl, ?_⟩
+          cases hr : hdrRate r.rate with
+          | error e => simp [receive, hc, hm, hmo, hst, hr] at h
+          | ok rate =>
+            cases hb : hdrBurst r.burst with
+            | error e => simp [receive, hc, hm, hmo, hst, hr, hb] at h
+            | ok burst =>
+              refine ⟨rate, burst, rfl, rfl, ?_⟩
+              simp [receive, hc, hm, hmo, hst, hr, hb]
+
+theorem hdrMax_ok (v : Bytes) (n : Int) (h : hdrMax v = .ok n) :
+    (v = [] → n = DirectConsts.maxPayloadSize) ∧ (-1 ≤ DirectConsts.maxPayloadSize → -1 ≤ n) := by
+  unfold hdrMax at h
+  split at h
+  · cases h; exact ⟨fun _ => rfl, fun h => h⟩
+  · rename_i hv
+    split at h
+    · split at h
+      · cases h; exact ⟨fun h0 => absurd h0 hv, fun _ => by omega⟩
+      · cases h
+    · cases h
+
+theorem hdrRanged_ok (v : Bytes) (d lo hi : Int) (e : Err) (n : Int) (h : hdrRanged v d lo hi e = .ok n) :
+    (v = [] → n = d) ∧ (lo ≤ d → d ≤ hi → lo ≤ n ∧ n ≤ hi) := by
+  unfold hdrRanged at h
+  split at h
+  · cases h; exact ⟨fun _ => rfl, fun h1 h2 => ⟨h1, h2⟩⟩
+  · rename_i hv
+    split at h
+    · split at h
+      · rename_i hh; cases h; exact ⟨fun h0 => absurd h0 hv, fun _ _ => hh⟩
+      · cases h
+    · cases h
 
 end Rie.DirectInvoke
